@@ -351,7 +351,7 @@ class World:
         st = self.load_state()
         err, _ = self.call(o.delete)
         # a reference that is not loaded (`p` of an object known by primary key only) makes delete load the row first
-        loads = self.infer_loads(st) if self.P is not None else []
+        loads = self.infer_loads(st)
         res = {'err': err, 'yields': None, 'mops': loads + [{'k': 'delete', 'o': op['o']}]}
         if loads: res['inferred'] = True
         if err is not None:
